@@ -79,8 +79,13 @@ class Ctx:
         self._log = []
         self._seq = 0
         self.faults = {}
+        self.pass_faults = {}       # faults that fire only in one pass (epoch)
+        self.pass_index = 0
         for f in (faults or []):
-            self.faults.setdefault(f['stage'], {})[int(f['pos'])] = f['exc']
+            if f.get('pass') is not None:
+                self.pass_faults.setdefault((f['stage'], int(f['pass'])), {})[int(f['pos'])] = f['exc']
+            else:
+                self.faults.setdefault(f['stage'], {})[int(f['pos'])] = f['exc']
         self.cost_seed = cost_seed
         self.raised = []
         self.fired = {}
@@ -106,13 +111,15 @@ class Ctx:
         return h % 4
 
     def fault_for(self, stage, ids):
-        fs = self.faults.get(stage)
-        if not fs or not self.armed:
+        if not self.armed:
             return None
-        for i in ids:
-            k = fs.get(i)
-            if k is not None:
-                return k, i
+        for fs in (self.faults.get(stage), self.pass_faults.get((stage, self.pass_index))):
+            if not fs:
+                continue
+            for i in ids:
+                k = fs.get(i)
+                if k is not None:
+                    return k, i
         return None
 
 
@@ -280,6 +287,20 @@ class ApplyShuffle:
         return 'ApplyShuffle(%s)' % self.seed
 
 
+class ApplyReshuffle:
+    """apply_fn that itself adds a per-epoch random stage"""
+
+    def __init__(self, seed):
+        self.seed = seed
+        self.rng = np.random.RandomState(seed)
+
+    def __call__(self, ds):
+        return ds.shuffle(True, rng=self.rng)
+
+    def __repr__(self):
+        return 'ApplyReshuffle(%s)' % self.seed
+
+
 # ---------------------------------------------------- reference datasets
 class RefCatchDataset(ldc.Dataset):
     """Independent sequential meaning of prefetch(catch_filter_exception=E):
@@ -375,7 +396,9 @@ def apply_stage(ds, st, parallel=True):
     if op == 'local_shuffle':
         return ds.shuffle(True, rng=_rng(st), buffer_size=st['bs'])
     if op == 'apply':
-        return ds.apply(ApplyShuffle(st['seed']), lazy=True)
+        fn = ApplyReshuffle(st['seed']) if st.get('inner') == 'reshuffle' \
+            else ApplyShuffle(st['seed'])
+        return ds.apply(fn, lazy=True)
     if op == 'sort':
         return ds.sort(KeyFn(st['id']), reverse=st.get('reverse', False))
     if op == 'cache':
